@@ -73,10 +73,13 @@ def check(run):
         wsf = [x for x in flat if q.callee_name(x.call) == 'sim::aux::write']
         ws = [x.anchor for x in wsf]
         ctxs = [f] + [g for g in {id(x.owner): x.owner for x in wsf}.values() if g is not f]
-        for g in ctxs:      # canonical names for the timestamp locals, whatever they are called
-            q.alias_local(g, 'now', init_re=r'high_resolution_clock::now\(\)$')
-            q.alias_local(g, 'usecs', init_re=r'duration_cast.*time_since_epoch\(\) - ')
-            q.alias_local(g, 'secs', init_re=r'duration_cast\(now\.time_since_epoch\(\)\)')
+        NOWTSE = r'high_resolution_clock::now\(\)\.time_since_epoch\(\)'
+        tn = {}
+        for g in ctxs:      # canonical names for the timestamp locals, whatever they are called; the clock reading and values
+            # derived from it without narrowing (`now`, `since_epoch`) are read through to the clock call itself
+            tn[id(g)] = q.expand_names(g, keep=lambda v, t: 'high_resolution_clock::now()' in t and 'uint32_t' not in g.ty(v['t']) and 'unsigned int' not in g.ty(v['t']))
+            q.alias_local(g, 'usecs', init_re=NOWTSE + r' - ', names=tn[id(g)])
+            q.alias_local(g, 'secs', init_re=r'duration_cast\(\(?sim::chrono::' + NOWTSE + r'\)', names=tn[id(g)])
             q.alias_local(g, 'sim_start_time', pred=lambda v: q.strip_casts(v['init'])['k'] == 'int' and (q.int_value(v['init']) or 0) > 1000000)
         args = [x.arg(1) for x in wsf]
         run.check(len(wsf) == 4 and args[2:] == ['packet_size', 'packet_size'], 'R14', 'record-header', PC + '::log_' + kind, f.loc(), 'the record header is not (secs, usecs, packet_size, packet_size): ' + str(args), '16-byte record header with the length written twice')
@@ -108,7 +111,7 @@ def check(run):
         why = ''
         txts = []
         for g, n in casts32:
-            t = q.render(g, n['e'])
+            t = q.render(g, n['e'], names=tn.get(id(g)))
             if 'time_since_epoch' not in t and 'now' not in t:
                 continue
             txts.append(t)
@@ -119,13 +122,12 @@ def check(run):
         sig_ts[kind] = txts
         run.check(ok_ts and (len(txts) >= 2 or bool(why)), 'R14', 'timestamp-split', PC + '::log_' + kind, f.loc(), why or 'seconds / sub-second microseconds idiom not found', 'seconds narrowed from whole seconds, microseconds from the sub-second remainder')
         ep = [v for g in ctxs for v in [q.local_var(g, 'sim_start_time')] if v]
-        nowd = [(g, v) for g in ctxs for v in [q.local_var(g, 'now')] if v]
-        if not ep or not nowd:
-            run.broke('log_%s: locals sim_start_time / now not found (renamed?)' % kind)
+        if not ep:
+            run.broke('log_%s: the epoch constant local was not found (renamed?)' % kind)
             continue
         run.check(bool(ep) and q.int_value(ep[0]['init']) == 441794304, 'R14', 'epoch', PC + '::log_' + kind, f.loc(), 'capture epoch literal changed', 'fixed epoch 441794304')
         run.check(args[:2] == ['(sim_start_time + secs)', 'usecs'], 'R14', 'timestamp-fields', PC + '::log_' + kind, f.loc(), 'timestamp fields are ' + str(args[:2]), 'ts_sec = epoch + secs, ts_usec = usecs')
-        run.check(bool(nowd) and q.render(nowd[0][0], nowd[0][1]['init']).endswith('high_resolution_clock::now()'), 'R14', 'timestamp-clock', PC + '::log_' + kind, f.loc(), 'timestamp is not taken from the virtual clock at logging time', 'now = high_resolution_clock::now()')
+        run.check(bool(txts) and all('sim::chrono::high_resolution_clock::now()' in t for t in txts), 'R14', 'timestamp-clock', PC + '::log_' + kind, f.loc(), 'timestamp is not taken from the virtual clock at logging time', 'now = high_resolution_clock::now()')
     run.check(sig_ts.get('tcp') == sig_ts.get('udp'), 'R14', 'timestamp-siblings', PC + '::log_tcp vs log_udp', '', 'log_tcp and log_udp compute the timestamp differently: %s vs %s' % (sig_ts.get('tcp'), sig_ts.get('udp')), 'identical timestamp expressions')
     for hname, hsz in (('write_udp_header', 8),):
         f = fx.fn1('sim::aux::' + hname)
